@@ -11,8 +11,15 @@ over (scopes.rs `find_identifier_in_scope`: the innermost scope that knows the n
 
 What differs between candidate *kinds* is the first half of `find_overload_casts`: a function template is turned into a
 concrete signature first (explicit template arguments, then `try_infer_template_type` over the parameters in order,
-`normalize_template_type`, `build_function_template_signature`), and that step can fail (candidate not viable) or
-panic (`register_type`: "… inside vector").  This file models
+`normalize_template_type`, `build_function_template_signature` / `build_intrinsic_template`), and that step can fail
+(candidate not viable).  Up to /repo 5dca4fc it could also panic (`register_type`: "… inside vector", `todo!()` for a
+constant given for a type parameter); since that fix such template arguments make the candidate not viable
+(`substPTy`), and `Thm.C16.templates_never_panic` proves that no panic site is left.  The `GCand` layer keeps the
+panic outcome of an instantiation step so that this stays a theorem about the model and not an assumption.
+
+After a successful resolution `write_function` / `write_method` apply the casts and run `check_output_arguments`
+(/repo b359800, 3758fdd): an argument for an `out` / `inout` parameter must still be a mutable lvalue *after* its
+conversion — `callT` below.  This file models
 
 * `GCand`: a candidate whose instantiation step is an arbitrary function of the argument types (the form the theorems
   quantify over: *any* deduction relation, any arity range),
@@ -20,7 +27,8 @@ panic (`register_type`: "… inside vector").  This file models
   type and value template parameters, explicit template arguments) with `TCand.toG`, the transcription of the template
   half of `find_overload_casts`,
 * `resolveG` (rank everything first) and `resolveGLazy` (evaluation order of the source), proved equal in
-  `Thm.C16.resolveGLazy_eq_resolveG`.
+  `Thm.C16.resolveGLazy_eq_resolveG`,
+* `callT`: the verdict on the whole call — `resolveTLazy`, then the output-argument check on the selected candidate.
 -/
 namespace RsslVerif.Model.Overload
 open RsslVerif.Gen.RankTable RsslVerif.Model.Conv
@@ -225,49 +233,63 @@ def kindsAgree : List TKind → List TArg → Bool
 def isPlainScalar (t : Ty) : Option Scalar :=
   if t.mod = {} then match t.layer with | .scalar s => some s | _ => none else none
 
-def substPTyArr (targs : List TArg) (k len : Nat) : Except String Ty :=
+def substPTyArr (targs : List TArg) (k len : Nat) : Except String (Option Ty) :=
   match targs[k]? with
   | some (.type t) =>
     match isPlainScalar t with
-    | some s => .ok ⟨{}, .other (arrayId s len)⟩
+    | some s => .ok (some ⟨{}, .other (arrayId s len)⟩)
     -- an array of a non-scalar is a legal type, but not one the protocol can name
     | none => .error "unsupported: array of a non-scalar"
-  | _ => .error "types.rs: todo!(\"Non-type template arguments\")"
+  -- `ir::TypeOrConstant::Constant(_) => return None`
+  | some .const => .ok none
+  | none => .error "types.rs: remap[index] out of bounds"
 
-/-- `apply_template_type_substitution` on one parameter type.  `.error` = the panic of `TypeRegistry::register_type`
-    ("… inside vector" / "… inside matrix") when the argument for `T` in `vector<T, n>` is not a plain scalar, or the
-    `todo!()` when a parameter type names a value parameter. -/
-def substPTy (targs : List TArg) : PTy → Except String Ty
-  | .conc t => .ok t
+/-- `apply_template_type_substitution` on one parameter type (since /repo 5dca4fc it returns an `Option`):
+    `.ok none` = `None`, the arguments do not form a valid type — a constant given where the signature names a type
+    parameter, or (`is_valid_element`) the argument for `T` in `vector<T, n>` / `matrix<T, x, y>` is not a plain scalar
+    (a modified type has the `Modifier` layer on top, so it is no valid element either).  Before that fix the first was
+    `todo!("Non-type template arguments")` and the second the panic "… inside vector" of `TypeRegistry::register_type`.
+    `.error` = the index panic of `remap[index]` (a parameter type that names a template parameter the declaration
+    does not have — such a declaration does not compile), or a type outside the protocol (`substPTyArr`). -/
+def substPTy (targs : List TArg) : PTy → Except String (Option Ty)
+  | .conc t => .ok (some t)
   | .tvar k =>
     match targs[k]? with
-    | some (.type t) => .ok t
-    | _ => .error "types.rs: todo!(\"Non-type template arguments\")"
+    | some (.type t) => .ok (some t)
+    | some .const => .ok none
+    | none => .error "types.rs: remap[index] out of bounds"
   | .tvec k n =>
     match targs[k]? with
     | some (.type t) =>
       match isPlainScalar t with
-      | some s => .ok ⟨{}, .vector s n⟩
-      | none => .error "ir_types.rs: inside vector"
-    | _ => .error "types.rs: todo!(\"Non-type template arguments\")"
+      | some s => .ok (some ⟨{}, .vector s n⟩)
+      | none => .ok none
+    | some .const => .ok none
+    | none => .error "types.rs: remap[index] out of bounds"
   | .tmat k x y =>
     match targs[k]? with
     | some (.type t) =>
       match isPlainScalar t with
-      | some s => .ok ⟨{}, .matrix s x y⟩
-      | none => .error "ir_types.rs: inside matrix"
-    | _ => .error "types.rs: todo!(\"Non-type template arguments\")"
+      | some s => .ok (some ⟨{}, .matrix s x y⟩)
+      | none => .ok none
+    | some .const => .ok none
+    | none => .error "types.rs: remap[index] out of bounds"
   | .tarr k len => substPTyArr targs k len
 
-def substParams (targs : List TArg) : List TParam → Except String (List Param)
-  | [] => .ok []
+/-- `ApplyTemplates for ir::FunctionSignature`: the parameter types in order, `?` on each — the first one that cannot
+    be formed makes the whole signature `None` (`.ok none`).  (The return type of the generated overloads is a concrete
+    struct; the compiler's own templates return `T` or a concrete type, which can be formed whenever `T` is a type.) -/
+def substParams (targs : List TArg) : List TParam → Except String (Option (List Param))
+  | [] => .ok (some [])
   | p :: ps =>
     match substPTy targs p.pat with
     | .error e => .error e
-    | .ok t =>
+    | .ok none => .ok none
+    | .ok (some t) =>
       match substParams targs ps with
       | .error e => .error e
-      | .ok rest => .ok (⟨t, p.io⟩ :: rest)
+      | .ok none => .ok none
+      | .ok (some rest) => .ok (some (⟨t, p.io⟩ :: rest))
 
 /-- the template arguments `find_overload_casts` settles on (`none` = not viable) -/
 def TCand.targs (c : TCand) (explicit : List TArg) (args : List ETy) : Option (List TArg) :=
@@ -281,18 +303,13 @@ def TCand.targs (c : TCand) (explicit : List TArg) (args : List ETy) : Option (L
 def TCand.inst (c : TCand) (explicit : List TArg) (args : List ETy) : Except String (Option (List Param)) :=
   if c.tkinds.isEmpty then
     -- `else if !template_args.is_empty() { return Err(()) }`: template arguments given to a non template function
-    if explicit.isEmpty then
-      match substParams [] c.params with
-      | .error e => .error e
-      | .ok ps => .ok (some ps)
+    if explicit.isEmpty then substParams [] c.params
     else .ok none
   else
     match c.targs explicit args with
     | none => .ok none
-    | some targs =>
-      match substParams targs c.params with
-      | .error e => .error e
-      | .ok ps => .ok (some ps)
+    -- `build_function_template_signature` / `build_intrinsic_template`: `None => return Err(())`
+    | some targs => substParams targs c.params
 
 def TCand.toG (explicit : List TArg) (c : TCand) : GCand :=
   ⟨c.id, c.params.length, c.nonDefault, c.inst explicit⟩
@@ -303,5 +320,99 @@ def resolveT (cands : List TCand) (explicit : List TArg) (args : List ETy) : Out
 
 def resolveTLazy (cands : List TCand) (explicit : List TArg) (args : List ETy) : Outcome :=
   resolveGLazy (cands.map (TCand.toG explicit)) args
+
+/-! ## after the resolution: `apply_casts`, then `check_output_arguments`
+
+`write_function` / `write_method`: `let (id, casts) = find_function_type(..)?; let param_values = apply_casts(casts,
+param_values, context); check_output_arguments(id, &param_values, call_location, context)?;`.
+`ImplicitConversion::apply` returns the argument expression itself only for `ImplicitConversion(_, _, None, None,
+None)` (no dimension, primary or modifier cast; a value-type cast alone changes nothing); every other conversion wraps
+it in `Expression::Cast`, whose type is an rvalue.  `check_output_arguments` runs `check_mutable_place` on the converted
+argument of every `out` / `inout` parameter of the selected signature; its first iteration reads the type of the
+expression: not an lvalue ⇒ `LvalueRequired`, a const type ⇒ `MutableRequired`.  The further iterations walk through
+member / swizzle / subscript expressions towards the variable: they depend on the *expression*, not on its type, and
+are outside this model (the correspondence programs pass locals, members of a non-const local struct and static
+globals, for which they pass; C03 owns that rule). -/
+
+/-- `ImplicitConversion::apply` returns `expr` unchanged -/
+def applyKeepsExpr (c : Conversion) : Bool := c.dimCast.isNone && c.primary.isNone && c.modCast.isNone
+
+/-- type of the argument expression after `ImplicitConversion::apply` as `check_mutable_place` reads it:
+    the source type when the expression is kept, else the type of an `Expression::Cast` — an rvalue
+    (its `TypeId` plays no role: `LvalueRequired` is returned before `is_const` is looked at) -/
+def appliedVT (c : Conversion) : VT := if applyKeepsExpr c then c.source.vt else .rvalue
+
+/-- why `check_output_arguments` refuses the call -/
+inductive OutErr where
+  /-- `TyperError::LvalueRequired`: "lvalue is required in this context" -/
+  | lvalueRequired
+  /-- `TyperError::MutableRequired`: "non-const is required in this context" -/
+  | mutableRequired
+  deriving DecidableEq, Repr
+
+/-- first iteration of `check_mutable_place` on one converted argument -/
+def checkPlace (c : Conversion) : Option OutErr :=
+  if appliedVT c ≠ .lvalue then some .lvalueRequired
+  else if c.source.ty.mod.isConst then some .mutableRequired
+  else none
+
+/-- `check_output_arguments`: the `zip` loop over the parameters of the selected signature and the converted
+    arguments, `?` on the first failure -/
+def checkOutputs : List Param → List Conversion → Option OutErr
+  | p :: ps, c :: cs =>
+    if p.io = .out ∨ p.io = .inOut then
+      match checkPlace c with
+      | some e => some e
+      | none => checkOutputs ps cs
+    else checkOutputs ps cs
+  | _, _ => none
+
+/-- verdict on the call expression: what `write_function` / `write_method` return -/
+inductive CallOutcome where
+  /-- the call is accepted and names this overload -/
+  | accepted (id : Nat)
+  /-- an overload was selected, but an `out` / `inout` argument is not a mutable lvalue after its conversion -/
+  | refused (e : OutErr)
+  | ambiguous (ids : List Nat)
+  | unmatched
+  | panic
+  deriving DecidableEq, Repr
+
+/-- the instantiated parameter list and the casts `find_function_type` returns for the selected overload
+    (`Ok((candidate, casts))`: the casts `find_overload_casts` computed for it).  `none`: the id is not a viable
+    declared candidate — cannot happen for a selected id (`Thm.C16.selectedG_is_viable`), the driver reports it as an
+    internal mismatch. -/
+def selectedCasts (cands : List TCand) (explicit : List TArg) (args : List ETy) (id : Nat) :
+    Option (List Param × List Conversion) :=
+  match cands.find? (·.id == id) with
+  | none => none
+  | some c =>
+    match c.inst explicit args with
+    | .ok (some ps) =>
+      match zipFind ps args with
+      | .ok (some casts) => some (ps, casts)
+      | _ => none
+    | _ => none
+
+/-- the part of `write_function` / `write_method` that follows `find_function_type`, given its verdict -/
+def finishCall (cands : List TCand) (explicit : List TArg) (args : List ETy) : Outcome → CallOutcome
+  | .selected id =>
+    match selectedCasts cands explicit args id with
+    | none => .panic
+    | some (ps, casts) =>
+      match checkOutputs ps casts with
+      | some e => .refused e
+      | none => .accepted id
+  | .ambiguous ids => .ambiguous ids
+  | .unmatched => .unmatched
+  | .panic => .panic
+
+/-- the whole call, evaluation order as in the source -/
+def callT (cands : List TCand) (explicit : List TArg) (args : List ETy) : CallOutcome :=
+  finishCall cands explicit args (resolveTLazy cands explicit args)
+
+def CallOutcome.normalize : CallOutcome → CallOutcome
+  | .ambiguous ids => .ambiguous (sortIds ids)
+  | o => o
 
 end RsslVerif.Model.Overload
